@@ -497,6 +497,64 @@ func (it *Interp) textModel(st *state, name string, c *ssa.CallCommon, args []Va
 				return StrV{Known: true, S: strings.TrimPrefix(s.S, cut.S)}, true
 			}
 		}
+		if name == "strings.TrimSuffix" && ok1 && ok2 && cut.Known && (s.Sym || s.Known) {
+			// symbolic text, constant suffix: decided when every one of the last characters either must
+			// or cannot be the suffix character (a character made from a nibble is 'f' iff the nibble is 15,
+			// which the premise on the sources may exclude)
+			cs, okC := toCharsOf(it, s)
+			k := len(cut.S)
+			if okC && k > 0 && len(cs) >= k {
+				must, cannot, open := true, false, false
+				for i := 0; i < k; i++ {
+					ch, c := cs[len(cs)-k+i], cut.S[i]
+					if v, isC := ch.IsConst(); isC && ch.Hex == nil {
+						if byte(v) != c {
+							cannot = true
+						}
+						continue
+					}
+					if ch.Hex != nil && ((c >= '0' && c <= '9') || (c >= 'a' && c <= 'f')) {
+						nv := int(c - '0')
+						if c >= 'a' {
+							nv = int(c-'a') + 10
+						}
+						eq := it.T.one
+						for b := 0; b < 4; b++ {
+							bit := ch.Hex[b]
+							if nv>>b&1 == 0 {
+								bit = it.T.Not(bit)
+							}
+							eq = it.T.And(eq, bit)
+						}
+						switch {
+						case it.EquivUnderPremise(eq, it.T.zero):
+							cannot = true
+						case it.EquivUnderPremise(eq, it.T.one):
+						default:
+							open = true
+						}
+						must = must && !cannot
+						continue
+					}
+					if cannotBe(ch, c) {
+						cannot = true
+					} else {
+						open = true
+					}
+				}
+				if cannot {
+					return s, true
+				}
+				if must && !open {
+					if s.Known {
+						return StrV{Known: true, S: s.S[:len(s.S)-k]}, true
+					}
+					return StrV{Sym: true, Chars: cs[:len(cs)-k]}, true
+				}
+			} else if okC && len(cs) < k {
+				return s, true
+			}
+		}
 		it.unsup("%s of a text whose length would depend on its symbolic contents", name)
 		return OpaqueV{"trimmed text"}, true
 	case "strings.HasSuffix", "strings.HasPrefix", "strings.Contains", "strings.EqualFold":
